@@ -151,7 +151,9 @@ def select_ignore_interrupts(iwtd, owtd, ewtd, timeout=None):
                 if timeout is not None:
                     timeout = end_time - time.time()
                     if timeout < 0:
-                        return([], [], [])
+                        # Out of time: one last non-blocking look, so that
+                        # what is readable right now is not missed.
+                        timeout = 0
             else:
                 # something else caused the select.error, so
                 # this actually is an exception.
@@ -182,7 +184,9 @@ def poll_ignore_interrupts(fds, timeout=None):
                 if timeout is not None:
                     timeout = end_time - time.time()
                     if timeout < 0:
-                        return []
+                        # Out of time: one last non-blocking look, so that
+                        # what is readable right now is not missed.
+                        timeout = 0
             else:
                 # something else caused the select.error, so
                 # this actually is an exception.
